@@ -43,7 +43,7 @@ func main() {
 				}()
 				select {
 				case <-done:
-				case <-time.After(3 * time.Second):
+				case <-time.After(60 * time.Second):
 					// a free-running hang (e.g. the select cross-talk defect): reported, the goroutines are abandoned
 					fmt.Println("race-pass hang:", t.Name)
 					hangs++
